@@ -2,8 +2,8 @@
 (***************************************************************************)
 (* C18, L2: an implementation-shaped model of openapi3gen                  *)
 (* (openapi3gen.go generateWithoutSaving / generateCycleSchemaRef,         *)
-(* field_info.go appendFields, type_info.go getTypeInfo) for the option    *)
-(* sets without component export:                                          *)
+(* field_info.go appendFields, type_info.go getTypeInfo,                   *)
+(* NewSchemaRefForValue's copy loop) for every option set of the catalogue:*)
 (*  - pointers are stripped, nullable = "was a pointer and is not the root"*)
 (*  - the kind switch (type, format, minimum, maximum per Go kind)         *)
 (*  - fields: appendFields order, untagged embedded struct(-pointer)s      *)
@@ -13,7 +13,20 @@
 (*    first, before the cycle check                                        *)
 (*  - a declared type met again on the parent chain is cut: the position   *)
 (*    becomes a bare $ref to the component of that name (nullable is not   *)
-(*    carried), and the component map receives the schema of the type      *)
+(*    carried); the reference object carries, as its value, the schema of  *)
+(*    the struct in whose field loop the cut happened (not of the type it  *)
+(*    names)                                                               *)
+(*  - with component export every struct below the root (the root too with *)
+(*    ExportTopLevelSchema) becomes a reference to the component named by  *)
+(*    the (caller's) type-name function; a struct whose component name is  *)
+(*    already registered is not generated again                            *)
+(*  - NewSchemaRefForValue copies into the caller's map, for every         *)
+(*    registered component name, the value of some reference object whose  *)
+(*    name matches and whose value has properties: struct schemas match by *)
+(*    their Go name, component and cycle references by their component    *)
+(*    name -- the latter only with component export (l.138-141).  Which    *)
+(*    matching object wins is decided by map iteration order: the model    *)
+(*    gives the set of candidates per name                                 *)
 (*  - appendFields does not terminate on a struct that embeds a pointer to *)
 (*    itself (Diverges)                                                    *)
 (* MC_C18 checks this model against the contract (GoSchema!Accepts on      *)
@@ -71,14 +84,26 @@ Diverges(T) == \E n \in ReachNames(T) : EmbedsBack(Defs(n), n, 3)
 WithNullable(s, nullable) ==
    IF ~nullable THEN s ELSE IF DOMAIN s = {} THEN [nullable |-> TRUE] ELSE [nullable |-> TRUE] @@ s
 
-(* The generator keeps a table  Go type -> finished schema  (Generator.Types) that it consults  *)
-(* before anything else (generateSchemaRefFor l.166), in particular before the cycle check, so  *)
-(* the model threads that table (cache: a set of [t, s]) through the depth-first generation.    *)
-(* GenC returns [s |-> schema, c |-> cache]; s = [cycle |-> n] when the type is a declared type *)
-(* on the parent chain (a failed generation is not cached).                                     *)
+ExportsComponents(opt) == opt \in {"export", "exporttop", "useall_export", "tng_export", "tng_exporttop"}
+ExportsTop(opt) == opt \in {"exporttop", "tng_exporttop"}
+UsesAllFields(opt) == opt \in {"useall", "useall_export"}
+GoNameOf(b) == IF b.k = "named" THEN b.n ELSE ""          \* reflect.Type.Name()
+
+(* Generator state threaded through the depth-first generation:                                  *)
+(*   c    - Generator.Types: Go type -> finished result (consulted before anything else, in      *)
+(*          particular before the cycle check, generateSchemaRefFor l.166); set of [t, s]         *)
+(*   csr  - componentSchemaRefs: the registered component names                                   *)
+(*   cand - the reference objects of Generator.SchemaRefs that have a name: [name, pref (the      *)
+(*          name is written with the #/components/schemas/ prefix), own (the value is the schema  *)
+(*          of the type the name stands for), val]                                                *)
+(* GenC returns [s, st]; s = [cycle |-> n] when the type is a declared type on the parent chain   *)
+(* (a failed generation is not cached).                                                           *)
+EmptySt == [c |-> {}, csr |-> {}, cand |-> {}]
 CacheHit(cache, T) == \E e \in cache : e.t = T
 CacheGet(cache, T) == (CHOOSE e \in cache : e.t = T).s
-AsSub(g) == IF Has(g, "cycle") THEN [ref |-> g.cycle] ELSE g
+AsSub(opt, g) == IF Has(g, "cycle") THEN [ref |-> TypeNameOf(opt, g.cycle)] ELSE g
+(* generateCycleSchemaRef registers the component name of the type it cuts at *)
+AfterChild(opt, x) == IF Has(x.s, "cycle") THEN [x.st EXCEPT !.csr = @ \cup {TypeNameOf(opt, x.s.cycle)}] ELSE x.st
 
 (* candidate fields in the order the generator visits them: sorted by JSON name, ties in *)
 (* appendFields order (sort.Sort on at most 12 elements is an insertion sort)              *)
@@ -86,55 +111,69 @@ VisitOrder(es, used) ==
    SortSeq(SelectSeq([i \in DOMAIN es |-> i], LAMBDA x : x \in used),
            LAMBDA x, y : NameIdx(es[x].name) * 100 + x < NameIdx(es[y].name) * 100 + y)
 
-RECURSIVE GenC(_, _, _, _, _), GenFields(_, _, _, _, _, _, _)
-(* visit the fields order[i..]; acc = the (name, schema) pairs so far *)
-GenFields(order, i, es, parents, useAll, cache, acc) ==
-   IF i > Len(order) THEN [acc |-> acc, c |-> cache]
+RECURSIVE GenC(_, _, _, _, _), GenFields(_, _, _, _, _, _, _, _)
+(* visit the fields order[i..]; acc = the (name, schema) pairs so far, cuts = the declared *)
+(* types cut in this struct's own field loop                                               *)
+GenFields(order, i, es, parents, opt, st, acc, cuts) ==
+   IF i > Len(order) THEN [acc |-> acc, st |-> st, cuts |-> cuts]
    ELSE LET e == es[order[i]]
-            r == GenC(e.t, parents, FALSE, useAll, cache)
-        IN GenFields(order, i + 1, es, parents, useAll, r.c, Append(acc, [name |-> e.name, s |-> AsSub(r.s)]))
+            r == GenC(e.t, parents, FALSE, opt, st)
+        IN GenFields(order, i + 1, es, parents, opt, AfterChild(opt, r),
+                     Append(acc, [name |-> e.name, s |-> AsSub(opt, r.s)]),
+                     IF Has(r.s, "cycle") THEN cuts \cup {r.s.cycle} ELSE cuts)
 
-GenC(T, parents, root, useAll, cache) ==
-   IF CacheHit(cache, T) THEN [s |-> CacheGet(cache, T), c |-> cache]
+GenC(T, parents, root, opt, st) ==
+   IF CacheHit(st.c, T) THEN [s |-> CacheGet(st.c, T), st |-> st]
    ELSE
    LET b == StripP(T)
-       nullable == T.k = "ptr" /\ ~root IN
-   IF b.k = "named" /\ b.n \in parents THEN [s |-> [cycle |-> b.n], c |-> cache]
-   ELSE LET ps2 == IF b.k = "named" THEN parents \cup {b.n} ELSE parents
-            r == CASE b.k \in BaseKinds -> [s |-> KindSchema(b.k), c |-> cache]
-                   [] b.k = "slice" -> LET x == GenC(b.e, ps2, FALSE, useAll, cache) IN
-                                       [s |-> [type |-> "array", items |-> AsSub(x.s)], c |-> x.c]
-                   [] b.k = "map"   -> LET x == GenC(b.e, ps2, FALSE, useAll, cache) IN
-                                       [s |-> [type |-> "object", apSchema |-> AsSub(x.s)], c |-> x.c]
-                   [] b.k \in {"struct", "named"} ->
-                        LET es == AppendFields(StructOf(b), 1, IF b.k = "named" THEN {b.n} ELSE {})
-                            used == {x \in DOMAIN es : es[x].tagged \/ useAll}
-                            g == GenFields(VisitOrder(es, used), 1, es, ps2, useAll, cache, <<>>)
-                            ks == SortNames({g.acc[x].name : x \in DOMAIN g.acc})
-                            last(n) == CHOOSE x \in DOMAIN g.acc :
-                                          g.acc[x].name = n /\ \A y \in DOMAIN g.acc : g.acc[y].name = n => y <= x
-                        IN [s |-> IF ks = <<>> THEN <<>>
-                                  ELSE [type |-> "object", pk |-> ks, ps |-> [i \in DOMAIN ks |-> g.acc[last(ks[i])].s]],
-                            c |-> g.c]
-            s == WithNullable(r.s, nullable)
-        IN [s |-> s, c |-> r.c \cup {[t |-> T, s |-> s]}]
+       nullable == T.k = "ptr" /\ ~root
+       cached(s, st2) == [s |-> s, st |-> [st2 EXCEPT !.c = @ \cup {[t |-> T, s |-> s]}]] IN
+   IF b.k = "named" /\ b.n \in parents THEN [s |-> [cycle |-> b.n], st |-> st]
+   ELSE LET ps2 == IF b.k = "named" THEN parents \cup {b.n} ELSE parents IN
+   CASE b.k \in BaseKinds -> cached(WithNullable(KindSchema(b.k), nullable), st)
+     [] b.k = "slice" -> LET x == GenC(b.e, ps2, FALSE, opt, st) IN
+                         cached(WithNullable([type |-> "array", items |-> AsSub(opt, x.s)], nullable), AfterChild(opt, x))
+     [] b.k = "map"   -> LET x == GenC(b.e, ps2, FALSE, opt, st) IN
+                         cached(WithNullable([type |-> "object", apSchema |-> AsSub(opt, x.s)], nullable), AfterChild(opt, x))
+     [] b.k \in {"struct", "named"} ->
+          LET tn == TypeNameOf(opt, GoNameOf(b)) IN
+          IF ExportsComponents(opt) /\ tn \in st.csr
+          THEN cached([ref |-> tn], st)               \* l.335: already a component, not generated again
+          ELSE LET es == AppendFields(StructOf(b), 1, IF b.k = "named" THEN {b.n} ELSE {})
+                   used == {x \in DOMAIN es : es[x].tagged \/ UsesAllFields(opt)}
+                   g == GenFields(VisitOrder(es, used), 1, es, ps2, opt, st, <<>>, {})
+                   ks == SortNames({g.acc[x].name : x \in DOMAIN g.acc})
+                   last(n) == CHOOSE x \in DOMAIN g.acc :
+                                 g.acc[x].name = n /\ \A y \in DOMAIN g.acc : g.acc[y].name = n => y <= x
+                   s == WithNullable(IF ks = <<>> THEN <<>>
+                                     ELSE [type |-> "object", pk |-> ks,
+                                           ps |-> [i \in DOMAIN ks |-> g.acc[last(ks[i])].s]], nullable)
+                   isComp == ExportsComponents(opt) /\ (~root \/ ExportsTop(opt))
+                   mine == [name |-> IF isComp THEN tn ELSE GoNameOf(b), pref |-> isComp, own |-> TRUE, val |-> s]
+                   held == {[name |-> TypeNameOf(opt, x), pref |-> TRUE, own |-> (b.k = "named" /\ x = b.n), val |-> s] :
+                               x \in g.cuts}
+               IN cached(IF isComp THEN [ref |-> tn] ELSE s,
+                         [g.st EXCEPT !.csr = IF isComp THEN @ \cup {tn} ELSE @,
+                                      !.cand = @ \cup {mine} \cup held])
 
-GenAll(T, useAll) == GenC(T, {}, TRUE, useAll, {})
-GenRoot(T, useAll) == GenAll(T, useAll).s
+GenAll(T, opt) == GenC(T, {}, TRUE, opt, EmptySt)
+GenRoot(T, opt) == GenAll(T, opt).s
 
-(* The component map receives, for every declared type at which a position was cut, the schema *)
-(* of one of the table's entries for that type or a pointer to it -- which one is decided by    *)
-(* map iteration order in the code (NewSchemaRefForValue l.136).                                *)
-NoNullable(s) == [f \in DOMAIN s \ {"nullable"} |-> s[f]]
-RefNamesIn(s) == {x.ref : x \in {y \in SubS(s) : Has(y, "ref")}}
-CompCandidates(cache, n) == {e.s : e \in {e \in cache : StripP(e.t) = Named(n) /\ Has(e.s, "pk")}}
-CutNames(cache) == UNION {RefNamesIn(e.s) : e \in cache}
-AllDefNames == <<"EA", "EB", "ES", "MA", "MB", "N1", "N2", "RMap", "RMapV", "RPSlice", "RPtr", "RPtrOE", "RSS", "RSlice">>
-(* the least favourable choice: a candidate that is not nullable, if there is one *)
-GenComps(T, useAll) ==
-   LET cache == GenAll(T, useAll).c
-       ks == SelectSeq(AllDefNames, LAMBDA n : n \in CutNames(cache) /\ CompCandidates(cache, n) # {})
-       pick(n) == LET cs == CompCandidates(cache, n)
+(* NewSchemaRefForValue l.136-148: the objects whose value may be stored under component name k *)
+Matches(opt, c, k) == Has(c.val, "pk") /\ c.name = k /\ (c.pref => ExportsComponents(opt))
+CompCands(opt, st, k) == {c \in st.cand : Matches(opt, c, k)}
+CompKeys(opt, st) == {k \in st.csr : CompCands(opt, st, k) # {}}
+(* can a component receive the schema of another type? *)
+ForeignCands(opt, st) == {c \in st.cand : ~c.own /\ \E k \in st.csr : Matches(opt, c, k)}
+
+RECURSIVE SetToSeq(_)
+SetToSeq(S) == IF S = {} THEN <<>> ELSE LET x == CHOOSE x \in S : TRUE IN <<x>> \o SetToSeq(S \ {x})
+(* the component map when every name receives the schema of its own type -- the least favourable *)
+(* such candidate (not nullable) if there are several                                            *)
+GenComps(T, opt) ==
+   LET st == GenAll(T, opt).st
+       ks == SetToSeq({k \in CompKeys(opt, st) : \E c \in CompCands(opt, st, k) : c.own})
+       pick(k) == LET cs == {c.val : c \in {c \in CompCands(opt, st, k) : c.own}}
                       strict == {c \in cs : ~Has(c, "nullable")} IN
                   IF strict # {} THEN CHOOSE c \in strict : TRUE ELSE CHOOSE c \in cs : TRUE
    IN [k |-> ks, v |-> [i \in DOMAIN ks |-> pick(ks[i])]]
